@@ -2557,6 +2557,11 @@ func (e *Engine) CreateIterator(ctx context.Context, measurement string, opt que
 	}
 
 	if call, ok := opt.Expr.(*influxql.Call); ok {
+		// The query compiler never produces a call without arguments, but the
+		// options of a remote CreateIterator request arrive unchecked.
+		if len(call.Args) == 0 {
+			return nil, fmt.Errorf("invalid number of arguments for %s, expected at least 1, got 0", call.Name)
+		}
 		if opt.Interval.IsZero() {
 			if call.Name == "first" || call.Name == "last" {
 				refOpt := opt
